@@ -210,6 +210,9 @@ def random_static_world(rng, n_user=None, max_methods=5, abstract=False, kinds_b
             m = dict(base)
             m["id"] = f"m{j + 1}"
             m["reg"] = j + 1
+            if (j + base["reg"]) % 2 == 0 and not m.get("names"):
+                # the same signature written with other parameter names (no extra draw from rng)
+                m["names"] = [f"q{i + 1}" for i in range(len(m["pos"]))]
         else:
             npos = rng.randint(1, maxpos) if rng.random() < 0.35 else maxpos
             types = [rng.randint(1, n) for _ in range(npos)]
